@@ -615,7 +615,7 @@ impl Property for C01 {
         "DBSIZE / KEYS / SCAN are expected not to show a key whose deadline has passed (the property's definition of visibility), although real Redis may count not-yet-collected keys in DBSIZE",
     ] }
     fn required_probes(&self) -> Vec<&'static str> { vec!["probe_at_deadline", "probe_at_deadline_minus_1", "collection_emptied", "command_saw_stale_entry", "scan_full_iteration", "wrongtype_expected"] }
-    fn runs(&self, tier: Tier) -> u64 { match tier { Tier::Quick => 1_000_000, Tier::Thorough => 10_000_000 } }
+    fn runs(&self, tier: Tier) -> u64 { match tier { Tier::Quick => 600_000, Tier::Thorough => 10_000_000 } }
 
     fn run(&self, src: &mut Src, ctx: &RunCtx) -> RunReport {
         let thorough = ctx.tier == Tier::Thorough;
